@@ -337,6 +337,9 @@ pub struct Vfs {
     initialized: AtomicBool,
     lock: Mutex<()>,
     remove_pseudo_root: bool,
+    // The global id_mapping this instance was created with. The mapping in effect is
+    // the one of the current options, see global_id_mapping().
+    #[allow(dead_code)]
     id_mapping: Option<(u32, u32, u32)>,
 }
 
@@ -602,7 +605,18 @@ impl Vfs {
         {
             return Some(m);
         }
-        self.id_mapping
+        self.global_id_mapping()
+    }
+
+    /// The global id_mapping of the current options, `None` if it is disabled. The options
+    /// are replaced by restore_from_bytes(), so a restored instance uses the saved mapping
+    /// rather than the one it happened to be created with.
+    fn global_id_mapping(&self) -> Option<(u32, u32, u32)> {
+        let id_mapping = self.opts.load().id_mapping;
+        match id_mapping.2 {
+            0 => None,
+            _ => Some(id_mapping),
+        }
     }
 
     fn convert_entry(&self, fs_idx: VfsIndex, inode: u64, entry: &mut Entry) -> Result<Entry> {
